@@ -148,11 +148,26 @@ def heartbeatOnlyStable (tr : List MStep) : Bool := heartbeatFrom false tr
 def afterStopStep (m : MStep) : Bool := !m.snap.stopping || !m.obs.any isGroupReqOb
 def afterStopOnlyLeave (tr : List MStep) : Bool := tr.all afterStopStep
 
+/-- the STRICT reading of "after stop": once `stop()` has been CALLED on a started, not stopping
+    member (`ConsumerGroup.stop` then drains the consumers before `Coordinator.stop` sets
+    `_stopping`), no JoinGroup request is observed any more.  (Heartbeats DO continue during the
+    drain — the consumers' final commits need a live membership — and a pending rejoin may still
+    look the coordinator up; see `afterStopOnlyLeave` for the reading "after `Coordinator.stop` has
+    begun", under which nothing but the leave goes out.)  `pre` = snapshot before the step. -/
+def noJoinAfterStopCalledFrom (pre : Snap) (called : Bool) : List MStep → Bool
+  | [] => true
+  | m :: ms =>
+    let called' := called || (isStopEv m.ev && pre.started && !pre.stopping)
+    (!called' || !m.obs.any isJoinOb) && noJoinAfterStopCalledFrom m.snap called' ms
+
+def noJoinAfterStopCalled (tr : List MStep) : Bool := noJoinAfterStopCalledFrom (snap init) false tr
+
 /-- every C16 check, by name -/
 def checks : List (String × (List MStep → Bool)) :=
   [("fenced", fenced), ("startsCommitted", startsCommitted), ("joinAdopted", joinAdopted), ("joinAfterDrain", joinAfterDrain),
    ("joinNoRunning", joinNoRunning), ("evictionStopsFirst", evictionStopsFirst), ("oneJoin", oneJoin),
-   ("heartbeatOnlyStable", heartbeatOnlyStable), ("afterStopOnlyLeave", afterStopOnlyLeave)]
+   ("heartbeatOnlyStable", heartbeatOnlyStable), ("afterStopOnlyLeave", afterStopOnlyLeave),
+   ("noJoinAfterStopCalled", noJoinAfterStopCalled)]
 
 def failing (tr : List MStep) : List String := (checks.filter fun c => !c.2 tr).map (·.1)
 
